@@ -162,3 +162,21 @@ Qed.
 Example ex_directed_refuses :
   ex_sub (to_delta ex_conv false false ex_ops ex_t1 ex_t2 (fst ex_r) (snd ex_r)) ex_t2 = None.
 Proof. apply directed_refuses_sub. reflexivity. Qed.
+
+(* beyond the property's quantifier: the verification of _do_item_removed does
+   NOT report a list whose item at the removed index differs from the recorded
+   one - it looks for the recorded value elsewhere and, not finding it, skips
+   the removal silently.  [1,2,3] -> [1,2] applied to [1,2,9]: result [1,2,9],
+   no error (same on the implementation, also with raise_errors=True). *)
+Definition ex3_t1 : value := VList [I 1; I 2; I 3].
+Definition ex3_t2 : value := VList [I 1; I 2].
+Definition ex3_r := run_diff hatom_simple (fun _ _ => []) ex_ops no_paths no_paths ex_cfg ex3_t1 ex3_t2.
+Definition ex3_d : delta := to_delta ex_conv true false ex_ops ex3_t1 ex3_t2 (fst ex3_r) (snd ex3_r).
+Definition ex3_base : value := VList [I 1; I 2; I 9].
+
+Example ex3_removed_item_mismatch_accepted :
+  d_irem ex3_d = [([PKey (AInt 2)], I 3)] /\
+  resolve ex3_base [PKey (AInt 2)] = Some (I 9) /\ py_eqv (I 3) (I 9) = false /\
+  ex_apply ex3_d ex3_t1 = (ex3_t2, 0) /\
+  ex_apply ex3_d ex3_base = (ex3_base, 0).
+Proof. vm_compute. repeat split. Qed.
